@@ -98,7 +98,14 @@ func (e *kvElection) heartbeatLoop(ctx context.Context) {
 			}
 			resultChan := make(chan updateResult, 1)
 
+			// Nothing new is sent once the term or the election has ended, and
+			// Stop waits for a refresh that is already on its way.
+			if ctx.Err() != nil {
+				return
+			}
+			e.wg.Add(1)
 			go func() {
+				defer e.wg.Done()
 				var opts []interface{}
 				if e.cfg.TTL > 0 {
 					opts = append(opts, e.cfg.TTL)
